@@ -46,8 +46,8 @@ func (g *G) name(prefix string) string {
 	return fmt.Sprintf("%s%d", prefix, g.n)
 }
 
-func (g *G) push()            { g.scopes = append(g.scopes, nil) }
-func (g *G) pop()             { g.scopes = g.scopes[:len(g.scopes)-1] }
+func (g *G) push()             { g.scopes = append(g.scopes, nil) }
+func (g *G) pop()              { g.scopes = g.scopes[:len(g.scopes)-1] }
 func (g *G) declare(v varInfo) { g.scopes[len(g.scopes)-1] = append(g.scopes[len(g.scopes)-1], v) }
 
 func (g *G) vars(pred func(varInfo) bool) []varInfo {
@@ -93,7 +93,7 @@ func uniform(t *rapid.T, n int, label string) int {
 func pick[T any](t *rapid.T, xs []T, label string) T { return xs[uniform(t, len(xs), label)] }
 
 func (g *G) intn(label string, lo, hi int) int { return lo + uniform(g.t, hi-lo+1, label) }
-func (g *G) chance(label string, pct int) bool  { return uniform(g.t, 100, label) < pct }
+func (g *G) chance(label string, pct int) bool { return uniform(g.t, 100, label) < pct }
 
 // ---------------------------------------------------------------- types
 
@@ -192,7 +192,9 @@ func (g *G) Expr(t *Type, depth int) Expr {
 		return g.lit(t)
 	}
 	d := depth - 1
-	num := func(label string) *Type { return rapid.SampledFrom([]*Type{TZahl, TZahl, TKomma, TByte}).Draw(g.t, label) }
+	num := func(label string) *Type {
+		return rapid.SampledFrom([]*Type{TZahl, TZahl, TKomma, TByte}).Draw(g.t, label)
+	}
 	intT := func(label string) *Type { return rapid.SampledFrom([]*Type{TZahl, TZahl, TByte}).Draw(g.t, label) }
 	switch t.K {
 	case KZahl:
